@@ -11,3 +11,14 @@ WRAP uint8_t w_td_is_empty(const TD* s) { return s->is_empty(); }
 WRAP int w_td_min(const TD* s, uint64_t* out) { try { *out = dbits(s->get_min_value()); return 0; } catch (...) { return 1; } }
 WRAP int w_td_max(const TD* s, uint64_t* out) { try { *out = dbits(s->get_max_value()); return 0; } catch (...) { return 1; } }
 WRAP uint16_t w_td_k(const TD* s) { return s->get_k(); }
+// state injection for the query functions (C17 quantile/rank clauses on digests whose centroids are all known): the centroid list, its total
+// weight and min / max are written directly (what merge() leaves behind), the buffer stays empty so compress() returns at once
+WRAP int w_td_inject(TD* s, uint32_t n, const uint64_t* mean_bits, const uint64_t* weights, uint64_t min_bits, uint64_t max_bits) {
+  try {
+    s->centroids_.clear(); s->buffer_.clear(); uint64_t tw = 0;
+    for (uint32_t i = 0; i < n; i++) { s->centroids_.push_back(TD::centroid(bitsd(mean_bits[i]), weights[i])); tw += weights[i]; }
+    s->centroids_weight_ = tw; s->min_ = bitsd(min_bits); s->max_ = bitsd(max_bits); return 0;
+  } catch (...) { return 1; }
+}
+WRAP int w_td_quantile(const TD* s, uint64_t rank_bits, uint64_t* out) { try { *out = dbits(s->get_quantile(bitsd(rank_bits))); return 0; } catch (...) { return 1; } }
+WRAP int w_td_rank(const TD* s, uint64_t value_bits, uint64_t* out) { try { *out = dbits(s->get_rank(bitsd(value_bits))); return 0; } catch (...) { return 1; } }
